@@ -1173,3 +1173,35 @@ assert "does not judge them either" not in PROPS["C14"]["partial_gap"]
 #      ring views with the final population there is C02's claim too.  A panicking poll never passes the token on (C13).
 PROPS["C02"]["also"] = [("C06", "views"), ("C06", "rotation")]
 PROPS["C13"]["also"] = list(PROPS["C13"].get("also", [])) + [("C05", "panic")]
+
+# ---- ORACLE SOUNDNESS of the FDL monitors (agent fdlx; Proofs/FdlOracleSound1..5.v) --------------------------------
+# "The executable monitors of Model/FdlOracle.v that run on the implementation's transcripts never reject a transcript
+#  of the MODEL."  Texts only: what is proved per property, and which rules are NOT yet covered.
+_FDL_OS = ('ORACLE SOUNDNESS (Proofs/FdlOracleSound*.v): model_transcript = the event list the driver would build from a run of the model '
+           '(A new, then any API calls and polls; harness PHY buffer; views computed from the model state); hypotheses: builder-valid '
+           'parameters, any number of total applications, poll times in range and strictly increasing, received bytes are bytes. ')
+PROPS["C01"]["level_note"] += (' ' + _FDL_OS + 'C01_oracle_sound: no rule of C01 of FdlOracle.monitor (tx_while_busy, sync_pause, who_may_transmit, '
+    'check_pass_before_slot, claim_before_timeout) is reported on a model transcript that does not pass through "state Offline with last_bus_activity '
+    'recorded" (reachable only by the self-re-creation after the second address collision with further telegrams in the buffer: two stations with '
+    'one address, outside the class of C01 - observation O9). The rules were adapted so that they do not fire in that corner either (an offline '
+    'station observes nothing; the claim reference survives the self-offline poll): C01_oracle_corner_accepted is a computed transcript of the corner '
+    'that the monitor accepts; 12000 fuzzed model histories x 800 polls (arbitrary bytes, busy flags, on/off) give no report.')
+PROPS["C01"]["partial_gap"] += (' Oracle soundness: the promptness monitor Model/FdlPrompt.v (P01_sync_pause_exceeded) is NOT covered; the proof of '
+    'C01_oracle_sound keeps the hypothesis no_stale (the O9 corner) although the adapted rules are quiet there.')
+PROPS["C05"]["level_note"] += (' ' + _FDL_OS + 'C05_oracle_sound: neither R05_panic nor R05_timeout is reported, for ALL input histories (set_passive ends '
+    'the transcript with the excused panic).')
+PROPS["C06"]["level_note"] += (' ' + _FDL_OS + 'C06_oracle_sound_partial: R06_no_claim_after_timeout is never reported on a model transcript (outside the O9 '
+    'corner, see C01).')
+PROPS["C06"]["partial_gap"] += ' Oracle soundness: R06_no_backoff is NOT yet covered.'
+PROPS["C13"]["level_note"] += (' ' + _FDL_OS + 'C13_oracle_sound: no rule of C13 (low_prio_after_hold_time in both forms, second_cycle_after_hold_time, '
+    'high_prio_inside_hold_time) is reported, for ALL input histories and applications that hand data telegrams to the PHY (app_sends_data). The proof '
+    'found one false alarm, repaired in the monitor: after the self-re-creation (second address collision) last_token_time is 0 again, the monitor '
+    'kept the old token times (high_prio_inside_hold_time on the unchanged crate; reproduction in Properties/C13.v).')
+PROPS["C15"]["level_note"] += (' ' + _FDL_OS + 'C15_oracle_sound_partial: of the rules of C15 only R15_no_reply_no_timeout can be reported on a model '
+    'transcript (all input histories, app_sends_data); the executable round-robin acceptor and the pass-to-self detection from the transmitted token '
+    'agree with the Coq acceptors (witnessing the own pass keeps NS: FdlOracleSound4.witness_own_pass_ns).')
+PROPS["C15"]["partial_gap"] += ' Oracle soundness: the liveness rule R15_no_reply_no_timeout is NOT yet covered.'
+PROPS["C11"]["partial_gap"] += (' Oracle soundness of the C11 monitor rules (accept_*, retry_*, removed_too_early, heard_but_supervising, '
+    'offer_changes_ring_view, supervision_never_ends) is NOT yet proved.')
+PROPS["C12"]["partial_gap"] += (' Oracle soundness of the C12 monitor rules (gap_poll_outside_gap, two_gap_polls_per_visit, reply_*, found_*, '
+    'successor_changed_without_ready_reply, sweep_bound, post_claim_scan_incomplete, gap_wait_never_ends) is NOT yet proved.')
